@@ -32,6 +32,8 @@ func c03Item(name string, kind int, tag string) (any, string, bool) {
 		g := vh.Bytes(name+"g", 1)
 		vh.Assume(vh.Not(vh.OneOf(g[0], " \t\n\r\"{[]}-0123456789tfn")))
 		return vh.Fault{Kind: vh.Garbage, Text: g}, "", false
+	case 8:
+		return vh.Fault{Kind: vh.ReadErrEOF}, "", false
 	case 7:
 		// three arbitrary bytes (a byte-order mark, a stray word ...), the first of which
 		// cannot begin a value
@@ -52,7 +54,7 @@ func VHC03Faults() {
 	want := ""
 	bad := -1
 	for i := 0; i < k; i++ {
-		kind := vh.Choose("kind"+itoa(i), 8)
+		kind := vh.Choose("kind"+itoa(i), 9)
 		if kind == 5 && i != k-1 {
 			kind = 0 // a truncated value can only be the last thing in a stream
 		}
@@ -112,7 +114,7 @@ func VHC03Files() {
 	b1 := vh.Bool("b1")
 	b2 := vh.Bool("b2")
 	faultIn := vh.Choose("faultIn", 3) // 0 none, 1 first file, 2 second file
-	fk := 1 + vh.Choose("fk", 5)
+	fk := []int{1, 2, 3, 4, 5, 8}[vh.Choose("fk", 6)]
 	mk := func(tag string, b bool, fault bool) *vh.DocStream {
 		items := []any{map[string]any{"t": tag, "b": b}}
 		if fault {
@@ -163,7 +165,7 @@ func VHC03Programs() {
 	for i := 0; i < nvals; i++ {
 		items = append(items, map[string]any{"t": "v" + itoa(i), "b": true})
 	}
-	fk := vh.Choose("fk", 8)
+	fk := vh.Choose("fk", 9)
 	if fk != 0 {
 		f, _, _ := c03Item("x", fk, "")
 		items = append(items, f)
